@@ -28,8 +28,7 @@ REQX = ("From Coq Require Import NArith ZArith QArith List Bool.\nImport ListNot
         "From PV Require Import Deps.PyImport Deps.Imports Deps.Metrics Deps.ImportsWf Deps.ImportsRun Deps.ImportsOpt "
         "Deps.TcGuard Deps.ImportsOptRun.\nOpen Scope N_scope.")
 
-XCLASS = {5: "wildcard-reexport", 6: "namespace-package-no-third-party", 8: "import-root-below-project-root",
-          9: "shadowed-module-file"}
+XCLASS = {5: "wildcard-reexport", 8: "import-root-below-project-root"}
 MARKERS = ["setup.py", "pyproject.toml", "setup.cfg", ".git", "requirements.txt"]
 
 T, F = ("flag", True), ("flag", False)          # names the analyser knows nothing about: FLAG = True, NOFLAG = False at run time
@@ -212,13 +211,29 @@ def stdlibname_project(rng):
     return mods
 
 
-def shadow_project(rng):
+def shadow_project(rng, variant):
+    """m.py next to m/__init__.py: Python imports the package, the file is dead.  Returns (modules, modules Python can import)"""
     b = B()
     st, mod = b.st, b.mod
-    mods = [mod(("dup",), stmts=[st("abs", ("user",)), st("from", ("lib",), ["fa"])]),        # dup.py, shadowed by dup/
-            mod(("dup",), pkg=True, stmts=[st("abs", ("lib",))]), mod(("dup", "part")),
-            mod(("user",), stmts=[st("abs", ("dup",)), st("from", ("dup",), ["part"])]), mod(("lib",)), mod(("other",), stmts=[st("abs", ("dup", "part"))])]
-    return mods
+    if variant == 0:
+        mods = [mod(("dup",), stmts=[st("abs", ("user",)), st("from", ("lib",), ["fa"])]),        # dup.py, shadowed by dup/
+                mod(("dup",), pkg=True, stmts=[st("abs", ("lib",))]), mod(("dup", "part")),
+                mod(("user",), stmts=[st("abs", ("dup",)), st("from", ("dup",), ["part"])]), mod(("lib",)), mod(("other",), stmts=[st("abs", ("dup", "part"))])]
+        dead = [("dup",)]
+    elif variant == 1:
+        # inside a package, the dead file would close a cycle; relative imports on both sides
+        mods = [mod(("pk",), pkg=True), mod(("pk", "dup"), stmts=[st("rel", (), ["client"], level=1), st("rel", ("client",), ["fa"], level=1)]),
+                mod(("pk", "dup"), pkg=True, stmts=[st("rel", ("helper",), ["fb"], level=2)]), mod(("pk", "dup", "inner")),
+                mod(("pk", "client"), stmts=[st("rel", (), ["dup"], level=1), st("from", ("pk", "dup"), ["inner"])]), mod(("pk", "helper")),
+                mod(("top",), stmts=[st("from", ("pk",), ["dup"]), st("abs", ("pk", "dup", "inner"))])]
+        dead = [("pk", "dup")]
+    else:
+        # two shadowed files; the dead files import each other and a live module
+        mods = [mod(("a",), stmts=[st("abs", ("b",)), st("abs", ("live",))]), mod(("a",), pkg=True),
+                mod(("b",), stmts=[st("abs", ("a",))]), mod(("b",), pkg=True, stmts=[st("abs", ("live",), pos=b.rand_position(rng))]),
+                mod(("b", "sub")), mod(("live",), stmts=[st("from", ("b",), ["sub"]), st("abs", ("a",))])]
+        dead = [("a",), ("b",)]
+    return mods, [m for m in mods if not (m["path"] in dead and not m["pkg"])]
 
 
 def broken_project(rng):
@@ -300,8 +315,9 @@ def extra_projects(rng, thorough):
         mods = stdlibname_project(rng)
         xs.append(X("stdlibname", mods))
         xs.append(X("stdlibname", mods, opts=dict(stdlib=True, third=False, rel=True, excl=[]), oracle=False))
-    mods = shadow_project(rng)
-    xs.append(X("shadow", mods, spec_mods=[m for m in mods if not (m["path"] == ("dup",) and not m["pkg"])], both_orders=True))
+    for variant in (0, 1, 2):
+        mods, live = shadow_project(rng, variant)
+        xs.append(X("shadow", mods, spec_mods=live, oracle_mods=live, both_orders=True))
     for k in range(6 if thorough else 2):
         xs.append(X("broken", broken_project(rng), both_orders=True, project_run=(k == 0)))
     xs.append(X("deeprel", deeprel_project()))
@@ -570,10 +586,9 @@ def decide_extra(ck, nm, work, xs, outs):
                 ck.violation("ModuleAnalyzer.AnalyzeProject (the way `pyscn check --select deps` runs it): %s"
                              % (r.get("project_error") or "modules %s, project %s" % (r.get("project_modules"), nodes)), replay)
                 continue
-            # the same graph as AnalyzeFiles: with the same options always, with other include options whenever every module
-            # directory has an __init__.py (Props/C12.v C12_include_options_irrelevant)
-            same_opts = x["opts"] == dict(stdlib=False, third=False, rel=True, excl=[])
-            if pe != ie and (same_opts or fam != "namespace"):
+            # the same graph as AnalyzeFiles, whatever include_third_party is (Props/C12.v C12_include_third_party_irrelevant;
+            # include_stdlib is false in both runs)
+            if pe != ie:
                 ck.violation("AnalyzeProject (options of `pyscn check`) and AnalyzeFiles give different graphs: %s" % sorted(pe ^ ie), replay)
                 continue
         pkgs = {".".join(pre + list(m["path"])) for m in mods if m["pkg"]}
